@@ -126,7 +126,7 @@ def one_history(args):
         return first_build_faults(seed, rec, rng)
     w = core.scratch_dir("c05")
     try:
-        if mode in ("inval", "f29"):
+        if mode in ("inval", "f29", "tear", "tear-revert"):
             # systematic sweep: one edit (in either direction), every k-th invalidation / prune as kill point,
             # each from a copy of the workspace as it was after the first build
             a = bc.gen_project(rng)
@@ -140,21 +140,22 @@ def one_history(args):
             proj.write_project(first, w)
             rc, _ = bc.bob(w, ["dev"] + bc.roots_of(first))
             rec["events"].append({"build": 0, "rc": rc, "edit": e[1] if e else None})
-            final = second if mode == "inval" else first       # f29: the edit is reverted after the kill
+            final = second if mode in ("inval", "tear") else first       # f29, tear-revert: the edit is reverted after the kill
             rec["final"] = final
             clean, ctxt = bc.clean_results(final, "c05cl")
             if clean is None or rc != 0:
                 rec["rejected"] = True
                 return rec
-            var = "BOBV_KILL_INVALIDATE" if mode == "inval" else "BOBV_KILL_PRUNE"
+            var = {"inval": "BOBV_KILL_INVALIDATE", "f29": "BOBV_KILL_PRUNE"}.get(mode, "BOBV_TEAR_SAVE")
+            fault = {"inval": "kill-invalidate", "f29": "kill-prune"}.get(mode, "kill-inside-state-write")
             rec["final_rc"] = 0
-            for k in range(1, 9):
+            for k in range(1, 9 if mode in ("inval", "f29") else 15):
                 wk = core.scratch_dir("c05k")
                 try:
                     shutil.rmtree(wk); shutil.copytree(w, wk, symlinks=True)
                     proj.write_project(second, wk)
                     rc, txt = bc.bob(wk, ["dev"] + bc.roots_of(second), crash_env={var: str(k)})
-                    ev = {"fault": "kill-invalidate" if mode == "inval" else "kill-prune", "k": k, "rc": rc, "aborted": rc != 0}
+                    ev = {"fault": fault, "k": k, "rc": rc, "aborted": rc != 0}
                     rec["events"].append(ev); unlock(wk)
                     if rc == 0:
                         break
@@ -223,14 +224,18 @@ def one_history(args):
 def run(ctx):
     ctx.rule = ("generated projects + edit histories; after each edit 1-2 aborted invocations (kill at the k-th state save, kill "
                 "right after a prune, failing script after partial output, SIGKILL from inside a script), stale lock removed, "
-                "then a normal build compared with a clean build; plus first builds of an empty workspace aborted inside every script "
+                "then a normal build compared with a clean build; sweeps over every k-th invalidation / prune / torn state write as kill "
+                "point around one edit (kept or reverted afterwards); plus first builds of an empty workspace aborted inside every script "
                 "in turn (projects with a package-only recipe); non-trivial when at least one invocation was really aborted")
     ctx.assumptions += [
         "scripts are deterministic and restartable by construction (they remove their own partial output first)",
-        "kill points are the persistent-state saves and the end of a prune; kills inside os-level file operations are C10's matter",
+        "kill points are the persistent-state saves, the end of a prune, the moment after an invalidation, and the middle of a "
+        "persistent-state write (half of the pickled state written: modes tear / tear-revert); other os-level tears are C10's matter",
     ]
     nh = ctx.n(16, 200)
     jobs = [(ctx.rng.randrange(1 << 30), "f29" if i % 8 in (0, 4) else ("inval" if i % 8 in (1, 3, 5) else "random")) for i in range(nh)]
+    jobs = [(sd, "tear-revert" if (m == "random" and i % 8 == 6) else m) for i, (sd, m) in enumerate(jobs)]
+    jobs += [(ctx.rng.randrange(1 << 30), m) for m in ["tear", "tear-revert"] * ctx.n(1, 10)]
     jobs += [(ctx.rng.randrange(1 << 30), "first") for i in range(ctx.n(4, 40))]
     with ThreadPoolExecutor(max_workers=6) as ex:
         recs = list(ex.map(one_history, jobs))
